@@ -33,24 +33,28 @@ import "math"
  */
 
 func logErfc8(x float64) float64 {
+  // rational approximation P(x)/Q(x) of exp(x^2) erfc(x), evaluated in
+  // y = 1/x as (1/x) Pr(y)/Qr(y) (coefficients in reverse order) so that
+  // large x do not overflow the polynomials
   P := NewPolynomial([]float64{
-    2.9788656263939928886200000000,
-    7.4097406059647417944250000000,
-    6.1602098531096305440906000000,
-    5.0190497267842674634500580000,
+    0.5641895835477550741253201704,
     1.2753666447299659524795852640,
-    0.5641895835477550741253201704 })
+    5.0190497267842674634500580000,
+    6.1602098531096305440906000000,
+    7.4097406059647417944250000000,
+    2.9788656263939928886200000000 })
   Q := NewPolynomial([]float64{
-    3.3690752069827527677000000000,
-    9.6089653271927878706980000000,
-    17.081440747466004315710950000,
-    12.048951927855129036034049100,
-    9.3960340162350541504305796480,
+    1.0000000000000000000000000000,
     2.2605285207673269695918669450,
-    1.0000000000000000000000000000 })
+    9.3960340162350541504305796480,
+    12.048951927855129036034049100,
+    17.081440747466004315710950000,
+    9.6089653271927878706980000000,
+    3.3690752069827527677000000000 })
 
-  e := P.Eval(x)/Q.Eval(x)
-  e  = math.Log(e) - x*x
+  y := 1.0/x
+  e := P.Eval(y)/Q.Eval(y)
+  e  = math.Log(e) - math.Log(x) - x*x
   return e
 }
 
